@@ -203,6 +203,65 @@ Example C08_tree_product_commute_example :
     = run w_gm false false st [amend1 w_A RVolatile w_d; RqTree (CStep w_B) w_d].
 Proof. vm_compute. repeat split; reflexivity. Qed.
 
+(* Static tree versus static file, ANY creators, same hypotheses: a file under the tree declared by
+   another creator is rejected with the tree/file message in both orders; a file of the tree's own
+   creator is handed over to the tree in both orders (same final state); an unrelated file is
+   independent. *)
+Theorem C08_tree_static_commute :
+  forall gm gr st c path c2 p,
+    Inv gm gr st ->
+    filter (is_prefix (with_slash path)) (loose st) = [] ->
+    accepted (step gm false gr st (RqTree c path)) = true ->
+    accepted (step gm false gr st (RqStatic c2 [p])) = true ->
+    both (run gm false gr st [RqTree c path; RqStatic c2 [p]])
+         (run gm false gr st [RqStatic c2 [p]; RqTree c path]).
+Proof. exact tree_static_commute. Qed.
+
+(* Two amended products (output / volatile) of any two steps, any two paths: the same path gives
+   the same collision message in both orders (or a no-op when it is the same declaration), two
+   different paths are independent (final states equal up to table order). *)
+Theorem C08_product_product_commute :
+  forall gm gr st s1 r1 p1 s2 r2 p2,
+    Inv gm gr st -> product_role r1 = true -> product_role r2 = true ->
+    accepted (step gm false gr st (amend1 s1 r1 p1)) = true ->
+    accepted (step gm false gr st (amend1 s2 r2 p2)) = true ->
+    both_equiv (run gm false gr st [amend1 s1 r1 p1; amend1 s2 r2 p2])
+               (run gm false gr st [amend1 s2 r2 p2; amend1 s1 r1 p1]).
+Proof. exact product_product_commute. Qed.
+
+(* Glob pattern versus amended product for the variant of register_nglob that scans the
+   products (gr = true, findings.d/C08-D3.patch): rejected in both orders with the same message
+   exactly when the regex matches the product, else accepted in both orders with the same state.
+   For the current tree (gr = false) this pair is refuted above (known finding D3). *)
+Theorem C08_glob_product_commute_when_scanned :
+  forall gm st sg pat ms s r p,
+    Inv gm true st -> product_role r = true ->
+    accepted (step gm false true st (RqGlob sg pat ms)) = true ->
+    accepted (step gm false true st (amend1 s r p)) = true ->
+    both (run gm false true st [RqGlob sg pat ms; amend1 s r p])
+         (run gm false true st [amend1 s r p; RqGlob sg pat ms]).
+Proof. exact glob_product_commute. Qed.
+
+Example C08_commute_examples :
+  let st := run_skip w_gm false true empty_state
+              [RqDefine CRoot w_plan [] [] []; RqDefine (CStep w_plan) w_A [] [] [];
+               RqDefine (CStep w_plan) w_B [] [] []] in
+  (* tree by B, static file under it by A: tree/file message in both orders *)
+  run w_gm false true st [RqTree (CStep w_B) w_d; RqStatic (CStep w_A) [w_d ++ [47; 120]]]
+    = Err (MTreeFile (w_d ++ [47]) (w_d ++ [47; 120])) /\
+  run w_gm false true st [RqStatic (CStep w_A) [w_d ++ [47; 120]]; RqTree (CStep w_B) w_d]
+    = Err (MTreeFile (w_d ++ [47]) (w_d ++ [47; 120])) /\
+  (* tree and file by the same creator: handed over, same state *)
+  run w_gm false true st [RqTree (CStep w_B) w_d; RqStatic (CStep w_B) [w_d ++ [47; 120]]]
+    = run w_gm false true st [RqStatic (CStep w_B) [w_d ++ [47; 120]]; RqTree (CStep w_B) w_d] /\
+  accepted (run w_gm false true st [RqTree (CStep w_B) w_d; RqStatic (CStep w_B) [w_d ++ [47; 120]]]) = true /\
+  (* pattern *.txt and output a.txt with the scanning register_nglob: same message both ways *)
+  run w_gm false true st [RqGlob w_B w_pat []; amend1 w_A ROutput w_atxt]
+    = Err (MGlobProduct w_pat w_B w_atxt w_A) /\
+  run w_gm false true st [amend1 w_A ROutput w_atxt; RqGlob w_B w_pat []]
+    = Err (MGlobProduct w_pat w_B w_atxt w_A).
+Proof. vm_compute. repeat split; reflexivity. Qed.
+
 (* Glob versus build product, decision level, once register_nglob scans the products: both
    sites decide by `gm pat p` and raise the same structured message. *)
 Theorem C08_glob_product_either_order_partial :
